@@ -219,6 +219,41 @@ func TestC03(t *testing.T) {
 	mailbox.VerifSetScryptN(old)
 	parallel(len(bulk), func(i int) { runJob(bulk[i]) })
 
+	// Histories: a process that sets up one handshake after another from the
+	// same passphrase buffer, overwritten in place when the pairing phrase
+	// changes (NewConnData keeps the caller's slice). What was derived for
+	// the phrase the buffer held before must not admit anybody afterwards:
+	// after every step, a party with the buffer's current contents pairs
+	// with the buffer's owner, and a party with the previous contents is
+	// rejected by the full rejection oracle. Both roles, 3 successive
+	// phrases, sequential.
+	for _, role := range []string{"responder", "initiator"} {
+		buf := append([]byte{}, entropy(0)...)
+		prev := []byte(nil)
+		for step := 0; step < 3; step++ {
+			copy(buf, entropy(step)) // in place
+			cur := append([]byte{}, buf...)
+			mk := func(peerSecret []byte) (party, party) {
+				ini := party{local: 1, remote: -1, secret: peerSecret, min: 0, max: 2, ephTag: "i"}
+				rsp := party{local: 2, remote: -1, secret: peerSecret, min: 0, max: 2, auth: authPayload(64), ephTag: "r"}
+				if role == "responder" {
+					rsp.secret = buf
+				} else {
+					ini.secret = buf
+				}
+				return ini, rsp
+			}
+			i1, r1 := mk(cur)
+			runJob(job{label: fmt.Sprintf("history: %s's passphrase buffer rewritten in place, step %d, peer uses the current phrase", role, step), ini: i1, rsp: r1, match: true})
+			if prev != nil {
+				i2, r2 := mk(prev)
+				runJob(job{label: fmt.Sprintf("history: %s's passphrase buffer rewritten in place, step %d, peer uses the previous phrase", role, step),
+					class: "XX-secret-history", ini: i2, rsp: r2})
+			}
+			prev = cur
+		}
+	}
+
 	r.Sample(map[string]any{"case": bulk[len(bulk)/2].label})
 	r.Sample(map[string]any{"case": jobs[len(jobs)-1].label})
 	r.Set("evaluations", evals)
